@@ -646,17 +646,20 @@ def _fill_regions(tree, acc, owner):
 
 
 def c13_short_chain_not_cut(case, obs, flavor):
-    """C13: "chains shorter than the bound run to their natural end".  Every step of a run starts from an idle
-    interpreter (queue drained), so the queue / raise-chain breaker may only fire in a step in which the machine sent
-    itself at least `maxIterations` events (sync: the drain budget counts the external event too; async: the counter
-    must EXCEED the bound).  `self_sends` counts the interpreter's own send() calls in the step, `chain_cuts` the
-    breaker's error logs (not the always-settling bound)."""
+    """C13: "chains shorter than the bound run to their natural end".  The queue / raise-chain breaker may only fire
+    in a step in which the machine sent itself MORE than `maxIterations` events, on both engines.  sync: the budget
+    of one drain is `maxIterations` + the number of events queued when the drain starts (`budget = limit +
+    len(self._event_queue)`, test `processed > budget`), so the external event of the step, events left queued by
+    an earlier send() that raised, and whatever start() queued before its drain do not count - a cut needs at least
+    `maxIterations + 1` events enqueued WHILE draining, all of them self-sends of this step (Lean:
+    `C13.short_chain_not_cut_sync` / `sync_cut_needs_long_chain`).  async: the counter must EXCEED the bound
+    (`C13.short_chain_not_cut_async`).  `self_sends` counts the interpreter's own send() calls in the step,
+    `chain_cuts` the breaker's error logs (not the always-settling bound).  No step is skipped: a sync step that
+    starts with a non-empty queue (the previous send raised) is held to the same threshold."""
     out = []
     limit = case["machine"].get("maxIterations", 1000)
     for i, o in enumerate(obs):
-        if i > 0 and obs[i - 1].get("qlen", 0):
-            continue        # a sync send() that raised left events queued: this step did not start from an empty queue
-        if o.get("chain_cuts") and o.get("self_sends", 1 << 30) < limit:
+        if o.get("chain_cuts") and o.get("self_sends", 1 << 30) <= limit:
             out.append({"kind": "short-chain-cut", "step": i, "at": None,
                         "detail": f"the chain breaker fired ({o['chain_cuts']} time(s)) in a step in which the machine sent itself only "
                                   f"{o['self_sends']} event(s); maxIterations={limit}",
